@@ -50,5 +50,47 @@ def run(ctx):
     )
 
 
+    # the reader models on a sample of the same texts: what parse + consume_rules return (rules / located error / panic)
+    # against ReaderP (the model frontend_no_panic is about) and ReaderFull, `R` lines of the C07 driver
+    d = os.path.join(ctx.rundir, "gen")
+    ops = read_lines(os.path.join(d, "ops.txt")) if os.path.exists(os.path.join(d, "ops.txt")) else []
+    short = [o.split()[1] for o in ops if o.startswith("F ") and len(o.split()) == 2 and 2 <= len(o.split()[1]) <= 2 * 140]
+    step = max(1, len(short) // (4000 if ctx.tier == "thorough" else 600))
+    sample = short[::step]
+    ok, out, bindir, _ = cargo_build("default", ["drv_read"])
+    if not ok:
+        ctx.violation({"obligation": "harness does not build against /repo", "log": out[-2000:]}, no_input=True)
+        return
+    rd = os.path.join(ctx.rundir, "reader"); os.makedirs(rd, exist_ok=True)
+    opsf = os.path.join(rd, "r_ops.txt")
+    open(opsf, "w").write("\n".join("R " + h for h in sample) + "\n")
+    c = correspond("reader", os.path.join(bindir, "drv_read"), ["run", opsf], "read", os.path.join(rd, "out"))
+    classes = {}
+    if c.error:
+        ctx.violation({"correspondence": c.name, "error": c.error}, no_input=True)
+    else:
+        imp = read_lines(os.path.join(rd, "out", "impl.txt"))
+        for x in imp:
+            k = x.split(" ")[0]; classes[k] = classes.get(k, 0) + 1
+        pan = [(i, op, im, mo) for (i, op, im, mo) in c.mismatch if im.startswith("panic")]
+        if pan:
+            i, op, im, mo = min(pan, key=lambda t: len(t[1]))
+            ctx.violation({"kind": "pest_meta::parser::parse + consume_rules panicked on a text", "leg": "reader", "case": op, "impl": im, "model": mo})
+        elif c.mismatch:
+            i, op, im, mo = min(c.mismatch, key=lambda t: len(t[1]))
+            ctx.violation({"kind": "correspondence `R` (what the real reader returns for a text vs the reader models ReaderP / ReaderFull) no longer checks", "leg": "reader",
+                           "case": op, "impl": im[:1500], "model": mo[:1500], "mismatches_in_run": len(c.mismatch)}, no_input=True)
+    ev_path = os.path.join(EVIDENCE, f"{ctx.prop}.json")
+    ev = json.load(open(ev_path))
+    ev["coverage"]["distribution"] = dict(ev["coverage"].get("distribution", {}), reader_models={"texts": len(sample), "real_reader_outcomes": classes, "mismatches": len(c.mismatch) if not c.error else None})
+    ev["coverage"]["traces_validated_against_impl"] = ev["coverage"].get("traces_validated_against_impl", 0) + len(sample)
+    ev["violations"] = len(ctx.violations)
+    ev["wall_s"] = round(time.time() - ctx.t0, 2)
+    json.dump(ev, open(ev_path, "w"), indent=1)
+
+
 def replay(ctx, path):
+    r = json.load(open(path))
+    if r.get("leg") == "reader":
+        return replay_generic(ctx, path, "drv_read", "read")
     return replay_generic(ctx, path, DRV, None)
